@@ -97,9 +97,9 @@ CHECKS = {
     },
     "C17": {
         "kind": "go",
-        "quick": [{"test": "TestC17", "checks": 14, "timeout": 600, "shrinktime": "5s"}],
+        "quick": [{"test": "TestC17", "checks": 24, "timeout": 600, "shrinktime": "5s"}],
         "thorough": [{"test": "TestC17", "checks": 15, "shards": 4, "timeout": 3000, "shrinktime": "10s"}],
-        "essential": ["collation_x_q", "alpha_x_c", "unsigned_x_c", "signed_x_c", "float_x_c", "compound_x_c", "collation_x_c"],
+        "essential": ["collation_x_q", "collation_x_s", "collation_x_i", "alpha_x_c", "unsigned_x_c", "signed_x_c", "float_x_c", "compound_x_c", "collation_x_c"],
         "assumptions": ["a measurement, not a proof of boundedness: live heap = runtime.MemStats.HeapAlloc after two forced collections",
                         "thresholds: total growth > 1 MiB over 8N operations with growth > 256 KiB in at least two of the intervals [0,N],[N,2N],[2N,4N],[4N,8N]; emptied tree retains <= 256 KiB",
                         "a measurement over the threshold is re-taken up to three times before it counts"],
@@ -120,5 +120,7 @@ CHECKS["C19"] = {
     "assumptions": ["the generator is cmd/go-art/main.go + tree.tmpl of the current working tree followed by gofmt, as gen.go's go:generate lines say",
                     "differential check over a finite domain: no random generation is involved; the five instantiations are enumerated completely"],
 }
+for _pid, _t in (("C01", "FuzzC01"), ("C02", "FuzzC02"), ("C11", "FuzzC11")):
+    CHECKS[_pid]["thorough"].append({"test": _t, "fuzz": True, "fuzztime": "90s", "timeout": 600, "steps": 60})
 
 # rule texts are kept next to the generators (harness/props.go); the driver copies them from the run statistics
